@@ -64,14 +64,14 @@ def run(chk):
     for deg in range(0, 7):
         cs = [dag.sym(f"c{i}") for i in range(deg + 1)]
         for rname, (active, w) in regimes.items():
-            for poison in (False, True):
+            for poison, nrep in ((False, Fraction(200)), (False, Fraction(-200)), (True, Fraction(-200))):
                 if poison and rname != "inside":
                     continue
 
-                def assume(text, env, rname=rname):
+                def assume(text, env, rname=rname, nrep=nrep):
                     # judged on the values (the symbols this check passes in), not on the names of the source's locals; a generic
                     # product N*logxmax is not within a tolerance of zero (that branch only avoids 0**0)
-                    rep = {"lmin": Fraction(-2), "lmax": Fraction(-1),
+                    rep = {"lmin": Fraction(-2), "lmax": Fraction(-1), "N": nrep,      # conditions on the size of Re N: both ends of the contour
                            "logx": {"below": Fraction(-3), "inside": Fraction(-3, 2), "above": Fraction(-1, 2), "just below the upper edge of": -1 - tiny,
                                     "just below the lower edge of": -2 - tiny, "just above the lower edge of": -2 + tiny}[rname]}
                     return decide_on_values(pe_box[0], " ".join(text.split()), env, rep)
@@ -92,7 +92,7 @@ def run(chk):
 
                     pe.ext["numpy.exp"] = exp_model
                 areas = Arr.from_nested([[lo, hi] + cs])
-                inst = f"degree={deg},point {rname} the area" + (",overflowing boundary factor" if poison else "")
+                inst = f"degree={deg},point {rname} the area" + (",overflowing boundary factor" if poison else "") + ("" if nrep > 0 or poison else ",tail of the contour")
                 try:
                     res = pe.call(fl.qname, [N, logx, areas])
                 except PERaise as e:
@@ -113,19 +113,37 @@ def run(chk):
                 chk.decide(ok, "n-space-basis-formula", fl.qname,
                            f"{inst}: the value is not sum_i c_i [F_i(logxmax) - {w} * F_i(logxmin)] with F_i the antiderivative of "
                            f"t^i exp(N(t - logx))", where=fl.where, instance=inst, data={"witness": info}, how="PE + PIT F_p")
-    # two areas add up
-    below = {"lmin": Fraction(-2), "lmax": Fraction(-1), "lmax2": Fraction(-1, 2), "logx": Fraction(-3)}
-    pe_box2 = [None]
-    pe = PE(src, assume=lambda text, env: decide_on_values(pe_box2[0], " ".join(text.split()), env, below))
-    pe_box2[0] = pe
-    pe.ext["numpy.finfo"] = lambda p, a, k: SimpleNamespace(eps=EPS)
-    a2 = Arr.from_nested([[lo, hi, dag.sym("c0"), dag.sym("c1")], [hi, dag.sym("lmax2"), dag.sym("d0"), dag.sym("d1")]])
-    res = pe.call(fl.qname, [N, logx, a2])
-    want = dag.addn([dag.mul(dag.sym(f"c{i}"), dag.sub(F(i, hi, N, logx), F(i, lo, N, logx))) for i in range(2)]
-                    + [dag.mul(dag.sym(f"d{i}"), dag.sub(F(i, dag.sym("lmax2"), N, logx), F(i, hi, N, logx))) for i in range(2)])
-    ok, info = dag.is_zero_fp([dag.sub(dag.tonode(res), want)], chk.seed, 2)
-    n_id += 1
-    chk.decide(ok, "n-space-basis-formula", fl.qname, "two areas do not add up", where=fl.where, instance="two areas", data={"witness": info})
+    # two areas add up - wherever the point lies with respect to them, and whatever the size of Re N (the contour runs from a large
+    # positive real part at the saddle to a large negative one in its tail): conditions that involve N are decided in both regimes
+    l2 = dag.sym("lmax2")
+    positions = {"below both": Fraction(-3), "inside the first": Fraction(-3, 2), "inside the second": Fraction(-3, 4), "above both": Fraction(-1, 4)}
+    for pname, lx in positions.items():
+        for nname, nrep in (("Re N = +200", Fraction(200)), ("Re N = -200", Fraction(-200))):
+            rep2 = {"lmin": Fraction(-2), "lmax": Fraction(-1), "lmax2": Fraction(-1, 2), "logx": lx, "N": nrep}
+            pe_box2 = [None]
+            pe = PE(src, assume=lambda text, env, rep2=rep2: decide_on_values(pe_box2[0], " ".join(text.split()), env, rep2))
+            pe_box2[0] = pe
+            pe.ext["numpy.finfo"] = lambda p, a, k: SimpleNamespace(eps=EPS)
+            a2 = Arr.from_nested([[lo, hi, dag.sym("c0"), dag.sym("c1")], [hi, l2, dag.sym("d0"), dag.sym("d1")]])
+            inst = f"two areas, point {pname}, {nname}"
+            try:
+                res = pe.call(fl.qname, [N, logx, a2])
+            except PERaise as e:
+                chk.fail("n-space-basis-formula", fl.qname, f"{inst}: raises {e}", where=fl.where, instance=inst)
+                continue
+
+            def contrib(cname, a_lo, a_hi, lo_v, hi_v):
+                if lx > hi_v:
+                    return []
+                w_ = 1 if lx < lo_v else 0
+                return [dag.mul(dag.sym(f"{cname}{i}"), dag.sub(F(i, a_hi, N, logx), dag.mul(dag.const(w_), F(i, a_lo, N, logx)))) for i in range(2)]
+
+            want = dag.addn([dag.const(0)] + contrib("c", lo, hi, Fraction(-2), Fraction(-1)) + contrib("d", hi, l2, Fraction(-1), Fraction(-1, 2)))
+            ok, info = dag.is_zero_fp([dag.sub(dag.tonode(res), want)], chk.seed, 2)
+            n_id += 1
+            chk.decide(ok, "n-space-basis-formula", fl.qname,
+                       f"{inst}: the value is not the sum of the contributions of the two areas (an area that contains the point, or lies above it, is "
+                       f"dropped or counted twice)", where=fl.where, instance=inst, data={"witness": info}, how="PE + PIT F_p")
     # ---- (3) linear sibling ------------------------------------------------------------------------------------------------------
     fn = src.func(f"{IP}.evaluate_Nx")
     xlo, xhi = dag.sym("xmin"), dag.sym("xmax")
